@@ -9,6 +9,7 @@ python3 tools/sql2lean.py > /dev/null
 python3 tools/server2lean.py > /dev/null
 python3 tools/clap2lean.py > /dev/null
 python3 tools/handlers2lean.py > /dev/null
+python3 tools/inmemory2lean.py > /dev/null
 (cd lean && lake build 2>&1 | tail -3)
 (cd harness && cargo build --offline --locked 2>&1 | tail -2)
 (cargo build --offline --locked --manifest-path /repo/Cargo.toml --bin taskchampion-sync-server --target-dir .cache/target-repo 2>&1 | tail -1)
